@@ -1,5 +1,62 @@
-/- Helper lemmas for Pk/Props/MgrReach.lean. -/
+/- Helper lemmas for Pk/Props/MgrReach.lean: bridges between the statements there and the inductive
+   forms of Pk/Proofs/MgrReachBound.lean (`PB`: all ids below a bound) and
+   Pk/Proofs/MgrReachGraph.lean (`G`: reference graph, `FJ`: parser facts). -/
 import Pk.Model.Manager
+import Pk.Proofs.MgrReachBound
+import Pk.Proofs.MgrReachGraph
 namespace Pk.Proofs.MgrReach
 open Pk.Mgr
+
+/-! ## `all` and `next` -/
+
+theorem step_all_next_other (s : St) (e : Ev) (st : Started)
+    (h : ∀ p u c a b d, e ≠ .importDone p u c a b d) :
+    (step s e st).1.all = s.all ∧ (step s e st).1.next = s.next :=
+  (MgrTags.step_frame s e st).2.2 h
+
+theorem step_importDone_all_next (s : St) (processed usednew : Nat) (created : List (Nat × List Nat))
+    (upd rst add : List Nat) (st : Started) (jn : Nat) (held : List Nat) (hj : s.jImport = some (jn, held)) :
+    (step s (.importDone processed usednew created upd rst add) st).1.all = jn + usednew ∧
+    (step s (.importDone processed usednew created upd rst add) st).1.next =
+      if created = [] then s.next else jn + usednew := by
+  obtain ⟨s2, hs, h0, h1⟩ := MgrTags.step_importDone_some s processed usednew created upd rst add st jn held hj
+  rw [hs.2.1, hs.2.2]
+  by_cases hc : created = []
+  · rw [if_pos hc]; exact ⟨(h0 hc).2.1, (h0 hc).2.2⟩
+  · rw [if_neg hc]
+    obtain ⟨s1, _, e2, e3, hf⟩ := h1 hc
+    exact ⟨hf.all.trans e2, hf.next.trans e3⟩
+
+theorem step_importDone_none' (s : St) (processed usednew : Nat) (created : List (Nat × List Nat))
+    (upd rst add : List Nat) (st : Started) (hj : s.jImport = none) :
+    (step s (.importDone processed usednew created upd rst add) st).1 = s := by
+  rw [MgrTags.step_importDone_none _ _ _ _ _ _ _ _ hj]
+
+/-! ## sorted tables: entries are lookups -/
+theorem mem_iff_sget {L : List (String × Tag)} (hw : (L.map (·.1)).Pairwise (· < ·)) (n : String) (t : Tag) :
+    (n, t) ∈ L ↔ sget L n = some t :=
+  ⟨MgrConv.mem_sget_of_sorted L hw n t, MgrConv.sget_mem L n t⟩
+
+/-! ## the reference graph in the form of the Props file -/
+theorem G_of_props {L : List (String × Tag)}
+    (hrb : ∀ nt ∈ L, ∀ r ∈ nt.2.refs, ∀ tr, sget L r = some tr → nt.1 ∈ tr.refBy)
+    (hre : ∀ nt ∈ L, ∀ r ∈ nt.2.refs, (sget L r).isSome = true) : G L := by
+  intro n t ht r hr
+  have hm := MgrConv.sget_mem L n t ht
+  have h1 := hre (n, t) hm r hr
+  cases e : sget L r with
+  | none => rw [e] at h1; cases h1
+  | some tr => exact ⟨tr, rfl, hrb (n, t) hm r hr tr e⟩
+
+theorem props_of_G {L : List (String × Tag)} (hw : (L.map (·.1)).Pairwise (· < ·)) (g : G L) :
+    (∀ nt ∈ L, ∀ r ∈ nt.2.refs, ∀ tr, sget L r = some tr → nt.1 ∈ tr.refBy) ∧
+    (∀ nt ∈ L, ∀ r ∈ nt.2.refs, (sget L r).isSome = true) := by
+  constructor
+  · intro nt hm r hr tr htr
+    obtain ⟨tr', h', hn⟩ := g nt.1 nt.2 (MgrConv.mem_sget_of_sorted L hw nt.1 nt.2 hm) r hr
+    rw [htr] at h'; cases h'; exact hn
+  · intro nt hm r hr
+    obtain ⟨tr', h', _⟩ := g nt.1 nt.2 (MgrConv.mem_sget_of_sorted L hw nt.1 nt.2 hm) r hr
+    rw [h']; rfl
+
 end Pk.Proofs.MgrReach
